@@ -51,21 +51,39 @@ func selftestDeterminism(args []string) {
 				defer func() { <-sem }()
 				dir, _ := os.MkdirTemp(scratchBase(), "verif-det-")
 				defer os.RemoveAll(dir)
-				cmd := exec.Command(bins[c.race], "-test.run", "^TestScenario$", "-test.timeout", "0", "-test.count", "1")
-				cmd.Env = append(os.Environ(), "VERIF_PROP="+prop, "VERIF_SEED=7", "VERIF_START=0", "VERIF_STRIDE=1", fmt.Sprintf("VERIF_COUNT=%d", runs),
-					"VERIF_OUT="+dir, "VERIF_HASHES=1", fmt.Sprintf("GOMAXPROCS=%d", c.procs), "GORACE=halt_on_error=1 exitcode=66")
-				cmd.Dir = dir
-				var so, se bytes.Buffer
-				cmd.Stdout, cmd.Stderr = &so, &se
-				err := cmd.Run()
+				// A race report ends the process (halt_on_error): the known
+				// finding C40/race:via ... does that in some runs. Such a run
+				// is noted and the next process continues after it, as the
+				// driver does; what is compared is the schedule of every run
+				// that completed, and at which runs the reports came.
 				var lines []string
-				for _, l := range strings.Split(so.String(), "\n") {
-					if strings.HasPrefix(l, "H ") {
-						lines = append(lines, l)
+				for start := 0; start < runs; {
+					cmd := exec.Command(bins[c.race], "-test.run", "^TestScenario$", "-test.timeout", "0", "-test.count", "1")
+					cmd.Env = append(os.Environ(), "VERIF_PROP="+prop, "VERIF_SEED=7", fmt.Sprintf("VERIF_START=%d", start), "VERIF_STRIDE=1", fmt.Sprintf("VERIF_COUNT=%d", runs-start),
+						"VERIF_OUT="+dir, "VERIF_HASHES=1", fmt.Sprintf("GOMAXPROCS=%d", c.procs), "GORACE=halt_on_error=1 exitcode=66")
+					cmd.Dir = dir
+					var so, se bytes.Buffer
+					cmd.Stdout, cmd.Stderr = &so, &se
+					err := cmd.Run()
+					last := -1
+					for _, l := range strings.Split(so.String(), "\n") {
+						if strings.HasPrefix(l, "H ") {
+							lines = append(lines, l)
+						}
+						if strings.HasPrefix(l, "R ") {
+							fmt.Sscanf(l, "R %d", &last)
+						}
 					}
-				}
-				if err != nil {
+					if err == nil {
+						break
+					}
+					if c.race && strings.Contains(se.String(), "WARNING: DATA RACE") && last >= start {
+						lines = append(lines, fmt.Sprintf("RACE-REPORT-AT %d", last))
+						start = last + 1
+						continue
+					}
 					lines = append(lines, "PROCESS-ERROR "+err.Error()+" "+tail(se.String(), 300))
+					break
 				}
 				outs[i] = strings.Join(lines, "\n")
 			}(i, c)
@@ -73,6 +91,32 @@ func selftestDeterminism(args []string) {
 		wg.Wait()
 		ref := outs[0]
 		ok := true
+		// the runs at which race reports came must agree among the race
+		// configurations; in their place the reference's line is put
+		raceAt := ""
+		for i := range outs {
+			if !cfgs[i].race {
+				continue
+			}
+			var at []string
+			refLines := strings.Split(ref, "\n")
+			ls := strings.Split(outs[i], "\n")
+			for j, l := range ls {
+				if strings.HasPrefix(l, "RACE-REPORT-AT ") {
+					at = append(at, l)
+					if j < len(refLines) {
+						ls[j] = refLines[j]
+					}
+				}
+			}
+			outs[i] = strings.Join(ls, "\n")
+			if a := strings.Join(at, ","); raceAt == "" {
+				raceAt = "=" + a
+			} else if raceAt != "="+a {
+				ok = false
+				fmt.Printf("selftest-determinism: %s: race reports came at different runs: %s vs %s\n", prop, raceAt[1:], a)
+			}
+		}
 		for i, o := range outs {
 			if o != ref {
 				ok = false
